@@ -15,9 +15,9 @@ IMPORTS = ["HyV.Scope.Comprehension", "HyV.Scope.CompShape"]
 def coq_clause(c):
     k = c[0]
     if k == "for":
-        return "CFor %d 0" % VAR[c[1]]
+        return "CFor %d 0" % (VAR.get(c[1], 99) if isinstance(c[1], str) else 98)
     if k == "setv":
-        return "CSetv %d 0" % VAR[c[1]]
+        return "CSetv %d 0" % (VAR.get(c[1], 99) if isinstance(c[1], str) else 98)
     return {"if": "CIf 0", "do": "CDo 0", "dobrk": "CBreakIf 0", "docnt": "CContIf 0"}[k]
 
 
